@@ -1,17 +1,6 @@
+from propcfg import PROPS
 NOTES = ("Machine-checked proof in Coq 8.16.1 of a hand-written Gallina model per property, tied to /repo on every run by "
          "(A) regeneration of constants/tables from the compiled packages and (B) a correspondence run of the extracted "
          "model and monitors against the real code. See DESIGN.md.")
 NOT_APPLICABLE = {}
-COMMON_NOTE = ("Trusted: Coq kernel; extraction (ExtrOcamlBasic only); OCaml glue; Go harness; the hand-written model is tied to the "
-               "code by correspondence on generated inputs, not by a translator. No axioms.")
-CLAIMED = {
-    'C03': {
-        'text': ("Theorems for all headers (any int64 length, any state byte, 4-bit opcodes): the cascade accepts iff no owned rule is "
-                 "broken and a reported error is a broken rule; for all status codes the accept/refuse sets; close body size and "
-                 "parse round-trip for all code/reason pairs. The finite part of the input space is also enumerated completely "
-                 "against the real functions."),
-        'design_ref': 'DESIGN.md section 4, C03',
-        'note': COMMON_NOTE + " utf8.ValidString is represented by the Table 3-7 spec (validated by U8 cases).",
-        'technique': 'Coq proof over a Gallina transcription + exhaustive/structured correspondence with the Go code',
-    },
-}
+CLAIMED = {pid: c['claim'] for pid, c in PROPS.items() if 'claim' in c}
